@@ -12,7 +12,7 @@ import (
 // cycle that does not grow the call stack: with the module closed, the optimised SSA of each cycle shape - in a module
 // with and without imported functions (function indexes shift) - leaves through the check within the step bound,
 // whatever the branch conditions are.
-//verif:opts split=shape:7
+//verif:opts split=shape:10
 func VerifC07_SSA_Cycles() {
 	type shape struct {
 		funcs []interpreter.VerifFuncSpec
@@ -27,6 +27,10 @@ func VerifC07_SSA_Cycles() {
 		{funcs: []interpreter.VerifFuncSpec{{Params: []byte{i32}, Body: []byte{0x20, 0x00, 0x12, k + 1}}, {Params: []byte{i32}, Body: []byte{0x20, 0x00, 0x12, k}}}}, // return_call mutual
 		{funcs: []interpreter.VerifFuncSpec{{Params: []byte{i32}, Body: []byte{0x20, 0x00, 0x12, k + 1}}, {Params: []byte{i32}, Body: []byte{0x20, 0x00, 0x12, k + 2}}, {Params: []byte{i32}, Body: []byte{0x20, 0x00, 0x12, k}}}}, // three-cycle
 		{funcs: []interpreter.VerifFuncSpec{{Params: []byte{i32}, Body: []byte{0x02, 0x40, 0x03, 0x40, 0x20, 0x00, 0x0e, 0x01, 0x00, 0x01, 0x0b, 0x0b, 0x20, 0x00, 0x12, k}}}}, // br_table loop then tail call
+		// a switch inside a loop: the loop is repeated only through a br_table whose FIRST label is not the loop
+		{funcs: []interpreter.VerifFuncSpec{{Params: []byte{i32}, Body: []byte{0x03, 0x40, 0x02, 0x40, 0x20, 0x00, 0x0e, 0x02, 0x00, 0x01, 0x01, 0x0b, 0x0b}}}},             // loop(block(br_table break continue default continue))
+		{funcs: []interpreter.VerifFuncSpec{{Params: []byte{i32}, Body: []byte{0x03, 0x40, 0x02, 0x40, 0x20, 0x00, 0x0e, 0x01, 0x00, 0x01, 0x0b, 0x0b}}}},                   // loop(block(br_table break default continue))
+		{funcs: []interpreter.VerifFuncSpec{{Params: []byte{i32}, Body: []byte{0x03, 0x40, 0x02, 0x40, 0x02, 0x40, 0x20, 0x00, 0x0e, 0x02, 0x00, 0x01, 0x02, 0x0b, 0x0b, 0x0b}}}}, // the loop is the default of three targets
 	}
 	sh := shapes[verifrt.Choose("shape", len(shapes))]
 	spec := &interpreter.VerifModuleSpec{Funcs: sh.funcs}
@@ -40,10 +44,19 @@ func VerifC07_SSA_Cycles() {
 		return
 	}
 	w.closed = 1
-	w.maxSteps = 200 // far more than any of these cycles needs to reach a check
+	w.maxSteps = 80 // far more than any of these cycles needs to reach a check, fewer than the executor's own loop bound
 	x := uint64(verifrt.U32("x"))
 	_, outcome := w.call(0, []vVal{{lo: x}})
 	stopped := outcome == vOutTrap && w.exitCode == wazevoapi.ExitCodeCheckModuleExitCode
-	verifrt.Assert(stopped, "with the module closed, every guest cycle leaves through the exit-code check (compiled SSA)")
-	verifrt.Cover("stopped")
+	if outcome == vOutUnsupported && w.unsupp != "step bound" {
+		verifrt.Note("unsupported: " + w.unsupp)
+		verifrt.Assert(false, "the reference evaluator models every SSA construct of this program family")
+		return
+	}
+	// either the guest leaves through the check, or it was not cycling for this argument and returned; going on beyond the
+	// step bound with the module closed is the violation
+	verifrt.Assert(stopped || outcome == vOutReturn, "with the module closed, every guest cycle leaves through the exit-code check (compiled SSA)")
+	if stopped {
+		verifrt.Cover("stopped")
+	}
 }
